@@ -175,11 +175,17 @@ def check_cfg(ctx, fx, cfg):
     # R02.6 join resolves: the join future takes the runtime handle out of its slot under the lock and releases the lock
     # before it waits — an abandoned earlier join cannot block a later join / consume (shared with C17)
     from props import c17
-    c17.check_join(ctx, fx, cfg, "R02.6")
+    if cfg != "bare":  # without a runtime feature there is no spawner, hence no join
+        c17.check_join(ctx, fx, cfg, "R02.6")
     # R02.7 closed list of hand-written poll functions (a Pending path that registers no waker hangs its awaiter; whether it
     # does is not decidable here, so a new implementation is reported for review): today only `impl Future for Addr`
     polls = sorted((i.get("trait"), i["self"]) for i in fx.d["impls"] if i.get("trait") in ("futures_core::stream::Stream", "core::future::future::Future", "futures_core::future::FusedFuture", "futures_core::stream::FusedStream", "futures_sink::Sink", "core::future::into_future::IntoFuture"))
     ctx.require(polls == [("core::future::future::Future", "addr::Addr<A>")], "R02.7", "hand-written-polls@" + cfg, "a new hand-written Future / Stream / Sink implementation in the crate: its Pending paths must register a waker — found %s" % polls, site="crate", detail=polls)
+    # R02.8 later awaits of a handle resolve with the termination result: a handle that polls its own share of the
+    # termination future in place keeps a fresh share on every completed outcome (shared with C14 / C04)
+    if cfg == "tokio":
+        from props import c14
+        c14.check_inplace_polls(ctx, fx, "R02.8")
     # R02.4 leak census
     leaks = [(f["def"], t["callee"], t["l"]) for f, bi, t in graph.all_calls(fx, is_leak)]
     ctx.require(not leaks, "R02.4", "no-leak-primitive@" + cfg, "leak primitive used (a leaked payload / receiver would leave callers hanging): %s" % leaks, site=leaks[0][2] if leaks else "crate", detail={"calls_scanned": sum(1 for _ in graph.all_calls(fx, lambda t: True)), "positive_control": "is_leak(core::mem::forget) holds"})
@@ -207,13 +213,25 @@ def check_cfg(ctx, fx, cfg):
                         vals.append((l, "await", st.get("l")))
         for local, producer, loc in vals:
             n_res += 1
-            sk = sinks(b, local)
             cls = set()
-            for s in sk:
-                if s["k"] == "call":
-                    cls.add((s["t"].get("callee") or "?").split("::")[-1])
-                else:
-                    cls.add(s["k"])
+            todo, seen_l = [local], set()
+            while todo:
+                cur = todo.pop()
+                if cur in seen_l:
+                    continue
+                seen_l.add(cur)
+                for s in sinks(b, cur):
+                    if s["k"] == "call":
+                        name = (s["t"].get("callee") or "?").split("::")[-1]
+                        # adapters that keep the error (map_err, map, into …): what counts is what happens to their result
+                        if name in ("map_err", "map", "into", "from", "inspect_err", "inspect") and s["idx"] == 0 and len(s["t"]["dest"]) == 1 and (s["t"].get("destty") or "").startswith("core::result::Result<"):
+                            if s["t"]["dest"][0] == 0:
+                                cls.add("ret")
+                            todo.append(s["t"]["dest"][0])
+                            continue
+                        cls.add(name)
+                    else:
+                        cls.add(s["k"])
             propagated = bool(cls & {"branch", "ret", "inspect"}) or (local == 0)
             checked_pred = bool(cls & {"is_err", "is_ok"})
             inst = "%s<-%s@%s" % (f["def"], producer.split("::")[-1], cfg)
